@@ -58,7 +58,8 @@ func (Prop) Assumptions() []string {
 		"an empty UID means the default UID 1234567812345678 for the signing/verifying entry points (documented library semantics); CalculateZA is checked with the literal UID including the empty one",
 		"digests handed to VerifyASN1/Verify are exactly 32 bytes (the standard's e); longer/shorter 'hash' arguments are not enumerated",
 		"smx509 CheckSignature only supports the default UID and is exercised only for it; CheckSignatureFrom and chain building belong to C15",
-		"quick tier: soundness on 4 of the 12 triples; thorough: all 12 plus 2-deviation mutants of 2 triples (all 2-deviation mutants of all 12 triples would cost ~40 CPU-minutes per configuration)",
+		"quick tier: soundness on 6 of the 12 triples; thorough: all 12 plus 2-deviation mutants of 2 triples (all 2-deviation mutants of all 12 triples would cost ~40 CPU-minutes per configuration)",
+		"legacy path: NIST P-256 as elliptic.P256() and wrapped so that only the generic elliptic.Curve methods are visible; the bare elliptic.P256() is skipped in the purego build because the Go 1.23 standard library's own p256Curve.Inverse panics there (nistec.P256OrdInverse unimplemented under -tags purego on amd64)",
 		"dispatch tiers: c-default, c-nobmi2 (non-ADX assembly), c-purego (fiat-crypto); arm64/ppc64le/s390x assembly is not covered",
 		"d = 0 and negative d are left to C14; concurrency on one key object is left to C20; RNG failure answers are left to C12",
 	}
@@ -245,15 +246,15 @@ var signEntries = []signEntry{
 
 // vctx is one verification context (public key, UID as passed to the library, message, reference digest).
 type vctx struct {
-	c       *ecref.Curve
-	g, p    *Table
-	pub     *ecdsa.PublicKey
-	cert    *smx509.Certificate
-	uid     []byte // as passed to the library (empty = default)
-	msg     []byte
-	e       []byte
-	defUID  bool
-	memo    map[string]bool
+	c        *ecref.Curve
+	g, p     *Table
+	pub      *ecdsa.PublicKey
+	cert     *smx509.Certificate
+	uid      []byte // as passed to the library (empty = default)
+	msg      []byte
+	e        []byte
+	defUID   bool
+	memo     map[string]bool
 	nEquEval int
 }
 
@@ -565,11 +566,7 @@ func mutClass(sig []byte, desc string) string {
 }
 
 func seedMustVerify(t *engine.T, tr *triple) bool {
-	n := len(t.Name)
-	_ = n
-	before := tr.v.nEquEval
 	tr.v.check(t, "seed", "unmodified reference signature", tr.sig)
-	_ = before
 	if a, _, _, _ := tr.v.refAccept(tr.sig); !a {
 		t.Fail("HARNESS/seed-rejected-by-reference", "triple %d", tr.idx)
 		return false
@@ -758,7 +755,7 @@ func (Prop) Run(c *engine.Ctx) {
 			c.Case(fmt.Sprintf("complete/%s/uidLen=%d", key.Name, ul), func(t *engine.T) { completenessCase(t, key, ul) })
 		}
 	}
-	triples := []int{0, 2, 7, 10}
+	triples := []int{0, 2, 5, 7, 10, 11}
 	if !c.Quick() {
 		triples = []int{0, 1, 2, 3, 4, 5, 6, 7, 8, 9, 10, 11}
 	}
